@@ -13,6 +13,7 @@ The time bound after healing is not decided.
 """
 from vplib import expr as E
 from vplib.facts import path_endswith
+from rules import rtps_core as R
 from rules.common import FnCtx, cmp_norm, adder
 
 TECHNIQUE = "MIR guard-free path search for success sends; who-may-write/who-may-call; call-graph must-accompany for list removals"
@@ -166,6 +167,8 @@ def run(ctx, rep):
     rep.floor("R03a", n, 2, "success sends to wait_for_acknowledgments waiters")
     n2 = oracle_definition(fx, rep)
     rep.floor("R03b", n2, 2, "writers of highest_acked_seq_num / callers of acked_changes_set")
+    ng = R.periodic_heartbeat_solicits_ack(fx, rep, "R03e")
+    rep.floor("R03e", ng, 3, "periodic heartbeat + reader must_send_acknacks sites")
     sites = removal_sites(fx, "UserDefinedDataWriter", "matched_subscription_list")
     rep.floor("R03c", len(sites), 2, "removals from matched_subscription_list")
     for b, bb, t in sites:
